@@ -225,7 +225,10 @@ func (r *NodeManagement) processNotifyDetailedDiscoveryData(message *api.Message
 
 		// is this addition?
 		if lastStateChange == model.NetworkManagementStateChangeTypeAdded {
-			entities, err := remoteDevice.AddEntityAndFeatures(false, data)
+			// only add this entity, the other entities of the notification may have another state
+			entityData := *data
+			entityData.EntityInformation = []model.NodeManagementDetailedDiscoveryEntityInformationType{entity}
+			entities, err := remoteDevice.AddEntityAndFeatures(false, &entityData)
 			if err != nil {
 				return err
 			}
@@ -261,7 +264,8 @@ func (r *NodeManagement) processNotifyDetailedDiscoveryData(message *api.Message
 
 		// is this removal?
 		if lastStateChange == model.NetworkManagementStateChangeTypeRemoved {
-			for _, ei := range data.EntityInformation {
+			// only remove this entity, the other entities of the notification may have another state
+			for _, ei := range []model.NodeManagementDetailedDiscoveryEntityInformationType{entity} {
 				if err := remoteDevice.CheckEntityInformation(false, ei); err != nil {
 					return err
 				}
